@@ -92,379 +92,6 @@ pub mod l15 {
    }
 }
 
-#[allow(unused, non_snake_case, clippy::all)]
-pub mod l23 {
-   use ascent::*;
-   use ascent::aggregators::*;
-   use ascent::lattice::{Dual, set::Set};
-   use crate::common::*;
-   ascent! {
-      pub struct Prog;
-      relation r0(i64, i64, i64);
-      relation r1(i64, i64, i64);
-      lattice r2(Set<i64>);
-      r2(Set::singleton((*v0))) <-- r0(v0, v0, v0);
-      r2(v0) <-- r2(v0), r2(v1);
-      r0(3, 3, 3) <-- r2(v0), r2(v1);
-      r0(v1, v1, v1) <-- r2(v0), r0(v1, v1, v1) if ((*v1) < 2);
-      r1(v1, v0, v0) <-- r0(0, v0, v1), r2(v2);
-   }
-   pub struct Inst { p: Prog, pool: Option<ascent::rayon::ThreadPool> }
-   pub fn make(pool: Option<usize>) -> Box<dyn Driver> {
-      let pool = pool.map(|n| ascent::rayon::ThreadPoolBuilder::new().num_threads(n).build().unwrap());
-      let p = match &pool { Some(pl) => pl.install(|| Default::default()), None => Default::default() };
-      Box::new(Inst { p, pool })
-   }
-   impl Driver for Inst {
-      fn load(&mut self, rel: usize, rows: &[Sexp], append: bool) -> Option<()> {
-         match rel {
-         0 => { let v: Vec<(i64,i64,i64,)> = parse_rows(rows)?; if append { self.p.r0.extend(v) } else { self.p.r0 = v } },
-         1 => { let v: Vec<(i64,i64,i64,)> = parse_rows(rows)?; if append { self.p.r1.extend(v) } else { self.p.r1 = v } },
-         2 => { let v: Vec<(Set<i64>,)> = parse_rows(rows)?; if append { self.p.r2.extend(v) } else { self.p.r2 = v } },
-            _ => return None,
-         }
-         Some(())
-      }
-      fn run(&mut self) { match &self.pool { Some(pl) => { let p = &mut self.p; pl.install(|| p.run()) }, None => self.p.run() } }
-      fn run_here(&mut self) { self.p.run() }
-      fn run_timeout(&mut self, k: usize) -> Option<bool> { let _ = k; None }
-      fn dump(&self) -> String { vec![dump_rel(0, self.p.r0.iter().map(Row::render).collect()), dump_rel(1, self.p.r1.iter().map(Row::render).collect()), dump_rel(2, self.p.r2.iter().map(Row::render).collect())].join(" | ") }
-      fn iters(&self) -> String { format!("iters {}", self.p.scc_iters.iter().map(|x| x.to_string()).collect::<Vec<_>>().join(" ")) }
-   }
-}
-
-#[allow(unused, non_snake_case, clippy::all)]
-pub mod l31 {
-   use ascent::*;
-   use ascent::aggregators::*;
-   use ascent::lattice::{Dual, set::Set};
-   use crate::common::*;
-   ascent! {
-      pub struct Prog;
-      relation r0(i64, i64);
-      relation r1(i64, i64, i64);
-      lattice r2(i64, i64, Set<i64>);
-      lattice r3(i64, i64, Dual<i64>);
-      r2(v0, v0, Set::singleton(1)) <-- r1(v0, v0, v0);
-      r2(v0, v1, v2) <-- r2(v0, v1, v2), r0(3, v0);
-      r2(v0, v0, v2) <-- r2(v0, v1, v2) if ((*v0) < 6), r2(v3, v0, v4);
-      r3(2, v0, Dual((*v0))) <-- r1(v0, v1, v1);
-      r3(v1, 3, Dual(2)) <-- r3(v0, v1, v2) if ((*v0) < 4), r0(v0, v3);
-      r0(v0, v1) <-- r1(v0, v0, v1);
-      r3(v0, v0, Dual((*v1))) <-- r2(v0, v1, v2);
-   }
-   pub struct Inst { p: Prog, pool: Option<ascent::rayon::ThreadPool> }
-   pub fn make(pool: Option<usize>) -> Box<dyn Driver> {
-      let pool = pool.map(|n| ascent::rayon::ThreadPoolBuilder::new().num_threads(n).build().unwrap());
-      let p = match &pool { Some(pl) => pl.install(|| Default::default()), None => Default::default() };
-      Box::new(Inst { p, pool })
-   }
-   impl Driver for Inst {
-      fn load(&mut self, rel: usize, rows: &[Sexp], append: bool) -> Option<()> {
-         match rel {
-         0 => { let v: Vec<(i64,i64,)> = parse_rows(rows)?; if append { self.p.r0.extend(v) } else { self.p.r0 = v } },
-         1 => { let v: Vec<(i64,i64,i64,)> = parse_rows(rows)?; if append { self.p.r1.extend(v) } else { self.p.r1 = v } },
-         2 => { let v: Vec<(i64,i64,Set<i64>,)> = parse_rows(rows)?; if append { self.p.r2.extend(v) } else { self.p.r2 = v } },
-         3 => { let v: Vec<(i64,i64,Dual<i64>,)> = parse_rows(rows)?; if append { self.p.r3.extend(v) } else { self.p.r3 = v } },
-            _ => return None,
-         }
-         Some(())
-      }
-      fn run(&mut self) { match &self.pool { Some(pl) => { let p = &mut self.p; pl.install(|| p.run()) }, None => self.p.run() } }
-      fn run_here(&mut self) { self.p.run() }
-      fn run_timeout(&mut self, k: usize) -> Option<bool> { let _ = k; None }
-      fn dump(&self) -> String { vec![dump_rel(0, self.p.r0.iter().map(Row::render).collect()), dump_rel(1, self.p.r1.iter().map(Row::render).collect()), dump_rel(2, self.p.r2.iter().map(Row::render).collect()), dump_rel(3, self.p.r3.iter().map(Row::render).collect())].join(" | ") }
-      fn iters(&self) -> String { format!("iters {}", self.p.scc_iters.iter().map(|x| x.to_string()).collect::<Vec<_>>().join(" ")) }
-   }
-}
-
-#[allow(unused, non_snake_case, clippy::all)]
-pub mod l39 {
-   use ascent::*;
-   use ascent::aggregators::*;
-   use ascent::lattice::{Dual, set::Set};
-   use crate::common::*;
-   ascent! {
-      pub struct Prog;
-      relation r0(i64, i64, i64);
-      relation r1(i64, i64);
-      relation r2(i64, i64);
-      relation r3(i64, i64);
-      lattice r4(i64, i64, Dual<i64>);
-      lattice r5(i64, Set<i64>);
-      r4(2, v0, Dual(3)) <-- r2(v0, v0);
-      r4(v2, v0, Dual(((v4.0) + 3))) <-- r4(v0, v0, v1), r4(v2, v3, v4);
-      r5(v0, Set::singleton((*v1))) <-- r1(v0, v1);
-      r5(v1, v2) <-- r5(v0, v2), r3(v0, v1);
-      r5(v0, Set::singleton((*v1))) <-- r3(v0, v1);
-      r5(v2, v1) <-- r5(v0, v1) if ((*v0) < 4), r1(v2, v2) if ((*v2) < 2);
-      r5(v0, v1) <-- r5(v0, v1) if ((*v0) < 2), r5(v0, v2);
-      r4(2, v0, Dual((*v0))) <-- r2(v0, 1), r1(v0, v1);
-      r5(v1, Set::singleton(3)) <-- r4(v0, v1, v2) if ((*v0) < 6);
-   }
-   pub struct Inst { p: Prog, pool: Option<ascent::rayon::ThreadPool> }
-   pub fn make(pool: Option<usize>) -> Box<dyn Driver> {
-      let pool = pool.map(|n| ascent::rayon::ThreadPoolBuilder::new().num_threads(n).build().unwrap());
-      let p = match &pool { Some(pl) => pl.install(|| Default::default()), None => Default::default() };
-      Box::new(Inst { p, pool })
-   }
-   impl Driver for Inst {
-      fn load(&mut self, rel: usize, rows: &[Sexp], append: bool) -> Option<()> {
-         match rel {
-         0 => { let v: Vec<(i64,i64,i64,)> = parse_rows(rows)?; if append { self.p.r0.extend(v) } else { self.p.r0 = v } },
-         1 => { let v: Vec<(i64,i64,)> = parse_rows(rows)?; if append { self.p.r1.extend(v) } else { self.p.r1 = v } },
-         2 => { let v: Vec<(i64,i64,)> = parse_rows(rows)?; if append { self.p.r2.extend(v) } else { self.p.r2 = v } },
-         3 => { let v: Vec<(i64,i64,)> = parse_rows(rows)?; if append { self.p.r3.extend(v) } else { self.p.r3 = v } },
-         4 => { let v: Vec<(i64,i64,Dual<i64>,)> = parse_rows(rows)?; if append { self.p.r4.extend(v) } else { self.p.r4 = v } },
-         5 => { let v: Vec<(i64,Set<i64>,)> = parse_rows(rows)?; if append { self.p.r5.extend(v) } else { self.p.r5 = v } },
-            _ => return None,
-         }
-         Some(())
-      }
-      fn run(&mut self) { match &self.pool { Some(pl) => { let p = &mut self.p; pl.install(|| p.run()) }, None => self.p.run() } }
-      fn run_here(&mut self) { self.p.run() }
-      fn run_timeout(&mut self, k: usize) -> Option<bool> { let _ = k; None }
-      fn dump(&self) -> String { vec![dump_rel(0, self.p.r0.iter().map(Row::render).collect()), dump_rel(1, self.p.r1.iter().map(Row::render).collect()), dump_rel(2, self.p.r2.iter().map(Row::render).collect()), dump_rel(3, self.p.r3.iter().map(Row::render).collect()), dump_rel(4, self.p.r4.iter().map(Row::render).collect()), dump_rel(5, self.p.r5.iter().map(Row::render).collect())].join(" | ") }
-      fn iters(&self) -> String { format!("iters {}", self.p.scc_iters.iter().map(|x| x.to_string()).collect::<Vec<_>>().join(" ")) }
-   }
-}
-
-#[allow(unused, non_snake_case, clippy::all)]
-pub mod l47 {
-   use ascent::*;
-   use ascent::aggregators::*;
-   use ascent::lattice::{Dual, set::Set};
-   use crate::common::*;
-   ascent! {
-      pub struct Prog;
-      relation r0(i64, i64, i64);
-      relation r1(i64, i64);
-      lattice r2(i64, i64, Dual<i64>);
-      lattice r3(i64, Option<i64>);
-      r2(((*v0) + 1), v0, Dual(1)) <-- r1(v0, v0), if ((*v0) < 6);
-      r2(((*v5) + 1), v5, Dual(((v2.0) + 3))) <-- r2(v0, v1, v2) if ((*v1) < 5), r0(v3, v4, v5), if ((*v5) < 6);
-      r3(v0, Some((*v0))) <-- r1(v0, v0);
-      r3(v0, v1) <-- r3(v0, v1), r1(v0, 3);
-      r2(2, ((*v0) + 1), Dual((*v3))) <-- r1(v0, 3), r0(v1, v2, v3), if ((*v0) < 6);
-      r0(v0, v0, v0) <-- r1(v0, v1) if ((*v1) < 4);
-      r1(v2, v0) <-- r0(v0, v1, v2);
-   }
-   pub struct Inst { p: Prog, pool: Option<ascent::rayon::ThreadPool> }
-   pub fn make(pool: Option<usize>) -> Box<dyn Driver> {
-      let pool = pool.map(|n| ascent::rayon::ThreadPoolBuilder::new().num_threads(n).build().unwrap());
-      let p = match &pool { Some(pl) => pl.install(|| Default::default()), None => Default::default() };
-      Box::new(Inst { p, pool })
-   }
-   impl Driver for Inst {
-      fn load(&mut self, rel: usize, rows: &[Sexp], append: bool) -> Option<()> {
-         match rel {
-         0 => { let v: Vec<(i64,i64,i64,)> = parse_rows(rows)?; if append { self.p.r0.extend(v) } else { self.p.r0 = v } },
-         1 => { let v: Vec<(i64,i64,)> = parse_rows(rows)?; if append { self.p.r1.extend(v) } else { self.p.r1 = v } },
-         2 => { let v: Vec<(i64,i64,Dual<i64>,)> = parse_rows(rows)?; if append { self.p.r2.extend(v) } else { self.p.r2 = v } },
-         3 => { let v: Vec<(i64,Option<i64>,)> = parse_rows(rows)?; if append { self.p.r3.extend(v) } else { self.p.r3 = v } },
-            _ => return None,
-         }
-         Some(())
-      }
-      fn run(&mut self) { match &self.pool { Some(pl) => { let p = &mut self.p; pl.install(|| p.run()) }, None => self.p.run() } }
-      fn run_here(&mut self) { self.p.run() }
-      fn run_timeout(&mut self, k: usize) -> Option<bool> { let _ = k; None }
-      fn dump(&self) -> String { vec![dump_rel(0, self.p.r0.iter().map(Row::render).collect()), dump_rel(1, self.p.r1.iter().map(Row::render).collect()), dump_rel(2, self.p.r2.iter().map(Row::render).collect()), dump_rel(3, self.p.r3.iter().map(Row::render).collect())].join(" | ") }
-      fn iters(&self) -> String { format!("iters {}", self.p.scc_iters.iter().map(|x| x.to_string()).collect::<Vec<_>>().join(" ")) }
-   }
-}
-
-#[allow(unused, non_snake_case, clippy::all)]
-pub mod l55 {
-   use ascent::*;
-   use ascent::aggregators::*;
-   use ascent::lattice::{Dual, set::Set};
-   use crate::common::*;
-   ascent! {
-      pub struct Prog;
-      relation r0(i64, i64, i64);
-      relation r1(i64);
-      relation r2(i64);
-      relation r3(i64, i64, i64);
-      lattice r4(Dual<i64>);
-      lattice r5(i64, i64, Dual<i64>);
-      r4(Dual(3)) <-- r0(v0, v1, v0) if ((*v0) < 4);
-      r4(v0) <-- r4(v0), r1(v1);
-      r5(v0, v0, Dual((*v0))) <-- r1(v0);
-      r5(v0, 1, v1) <-- r5(3, v0, v1), r1(v2);
-      r5(v3, v0, Dual(((v2.0) + 0))) <-- r5(v0, v1, v2), r5(v1, v3, v4);
-      r4(Dual(2)) <-- r0(v0, v1, 3), r0(v2, v3, v4);
-      r3(v0, 3, v1) <-- r5(v0, v1, v2);
-      r3(3, 3, 2) <-- r4(v0);
-   }
-   pub struct Inst { p: Prog, pool: Option<ascent::rayon::ThreadPool> }
-   pub fn make(pool: Option<usize>) -> Box<dyn Driver> {
-      let pool = pool.map(|n| ascent::rayon::ThreadPoolBuilder::new().num_threads(n).build().unwrap());
-      let p = match &pool { Some(pl) => pl.install(|| Default::default()), None => Default::default() };
-      Box::new(Inst { p, pool })
-   }
-   impl Driver for Inst {
-      fn load(&mut self, rel: usize, rows: &[Sexp], append: bool) -> Option<()> {
-         match rel {
-         0 => { let v: Vec<(i64,i64,i64,)> = parse_rows(rows)?; if append { self.p.r0.extend(v) } else { self.p.r0 = v } },
-         1 => { let v: Vec<(i64,)> = parse_rows(rows)?; if append { self.p.r1.extend(v) } else { self.p.r1 = v } },
-         2 => { let v: Vec<(i64,)> = parse_rows(rows)?; if append { self.p.r2.extend(v) } else { self.p.r2 = v } },
-         3 => { let v: Vec<(i64,i64,i64,)> = parse_rows(rows)?; if append { self.p.r3.extend(v) } else { self.p.r3 = v } },
-         4 => { let v: Vec<(Dual<i64>,)> = parse_rows(rows)?; if append { self.p.r4.extend(v) } else { self.p.r4 = v } },
-         5 => { let v: Vec<(i64,i64,Dual<i64>,)> = parse_rows(rows)?; if append { self.p.r5.extend(v) } else { self.p.r5 = v } },
-            _ => return None,
-         }
-         Some(())
-      }
-      fn run(&mut self) { match &self.pool { Some(pl) => { let p = &mut self.p; pl.install(|| p.run()) }, None => self.p.run() } }
-      fn run_here(&mut self) { self.p.run() }
-      fn run_timeout(&mut self, k: usize) -> Option<bool> { let _ = k; None }
-      fn dump(&self) -> String { vec![dump_rel(0, self.p.r0.iter().map(Row::render).collect()), dump_rel(1, self.p.r1.iter().map(Row::render).collect()), dump_rel(2, self.p.r2.iter().map(Row::render).collect()), dump_rel(3, self.p.r3.iter().map(Row::render).collect()), dump_rel(4, self.p.r4.iter().map(Row::render).collect()), dump_rel(5, self.p.r5.iter().map(Row::render).collect())].join(" | ") }
-      fn iters(&self) -> String { format!("iters {}", self.p.scc_iters.iter().map(|x| x.to_string()).collect::<Vec<_>>().join(" ")) }
-   }
-}
-
-#[allow(unused, non_snake_case, clippy::all)]
-pub mod l63 {
-   use ascent::*;
-   use ascent::aggregators::*;
-   use ascent::lattice::{Dual, set::Set};
-   use crate::common::*;
-   ascent! {
-      pub struct Prog;
-      relation r0(i64, i64);
-      relation r1(i64, i64);
-      lattice r2(i64, i64, Set<i64>);
-      lattice r3(i64, Option<i64>);
-      r2(v1, 0, Set::singleton((*v0))) <-- r0(v0, v1);
-      r2(3, v0, Set::singleton((*v3))) <-- r2(v0, v1, v2), r0(v3, v4);
-      r3(v0, Some(1)) <-- r0(v0, 1);
-      r3(v2, v1) <-- r3(v0, v1) if ((*v0) < 6), r1(v2, v0);
-      r3(v0, v3) <-- r3(v0, v1), r3(v2, v3);
-      r2(v0, v0, Set::singleton(0)) <-- r0(v0, 2), r3(v0, v1);
-      r1(((*v0) + 1), v0) <-- r2(v0, 0, v1), r3(v0, v2), if ((*v0) < 6);
-      r3(v0, v2) <-- r2(0, v0, v1), r3(v0, v2);
-   }
-   pub struct Inst { p: Prog, pool: Option<ascent::rayon::ThreadPool> }
-   pub fn make(pool: Option<usize>) -> Box<dyn Driver> {
-      let pool = pool.map(|n| ascent::rayon::ThreadPoolBuilder::new().num_threads(n).build().unwrap());
-      let p = match &pool { Some(pl) => pl.install(|| Default::default()), None => Default::default() };
-      Box::new(Inst { p, pool })
-   }
-   impl Driver for Inst {
-      fn load(&mut self, rel: usize, rows: &[Sexp], append: bool) -> Option<()> {
-         match rel {
-         0 => { let v: Vec<(i64,i64,)> = parse_rows(rows)?; if append { self.p.r0.extend(v) } else { self.p.r0 = v } },
-         1 => { let v: Vec<(i64,i64,)> = parse_rows(rows)?; if append { self.p.r1.extend(v) } else { self.p.r1 = v } },
-         2 => { let v: Vec<(i64,i64,Set<i64>,)> = parse_rows(rows)?; if append { self.p.r2.extend(v) } else { self.p.r2 = v } },
-         3 => { let v: Vec<(i64,Option<i64>,)> = parse_rows(rows)?; if append { self.p.r3.extend(v) } else { self.p.r3 = v } },
-            _ => return None,
-         }
-         Some(())
-      }
-      fn run(&mut self) { match &self.pool { Some(pl) => { let p = &mut self.p; pl.install(|| p.run()) }, None => self.p.run() } }
-      fn run_here(&mut self) { self.p.run() }
-      fn run_timeout(&mut self, k: usize) -> Option<bool> { let _ = k; None }
-      fn dump(&self) -> String { vec![dump_rel(0, self.p.r0.iter().map(Row::render).collect()), dump_rel(1, self.p.r1.iter().map(Row::render).collect()), dump_rel(2, self.p.r2.iter().map(Row::render).collect()), dump_rel(3, self.p.r3.iter().map(Row::render).collect())].join(" | ") }
-      fn iters(&self) -> String { format!("iters {}", self.p.scc_iters.iter().map(|x| x.to_string()).collect::<Vec<_>>().join(" ")) }
-   }
-}
-
-#[allow(unused, non_snake_case, clippy::all)]
-pub mod l71 {
-   use ascent::*;
-   use ascent::aggregators::*;
-   use ascent::lattice::{Dual, set::Set};
-   use crate::common::*;
-   ascent! {
-      pub struct Prog;
-      relation r0(i64, i64);
-      relation r1(i64, i64);
-      relation r2(i64, i64, i64);
-      lattice r3(i64, i64, Dual<i64>);
-      r3(v0, v0, Dual((*v0))) <-- r2(v0, v0, v0);
-      r3(v3, v1, v2) <-- r3(v0, v1, v2), r2(v0, v0, v3);
-      r1(1, v0) <-- r2(v0, v0, v1);
-      r1(v0, v2) <-- r1(0, v0), r2(v1, v0, v2);
-   }
-   pub struct Inst { p: Prog, pool: Option<ascent::rayon::ThreadPool> }
-   pub fn make(pool: Option<usize>) -> Box<dyn Driver> {
-      let pool = pool.map(|n| ascent::rayon::ThreadPoolBuilder::new().num_threads(n).build().unwrap());
-      let p = match &pool { Some(pl) => pl.install(|| Default::default()), None => Default::default() };
-      Box::new(Inst { p, pool })
-   }
-   impl Driver for Inst {
-      fn load(&mut self, rel: usize, rows: &[Sexp], append: bool) -> Option<()> {
-         match rel {
-         0 => { let v: Vec<(i64,i64,)> = parse_rows(rows)?; if append { self.p.r0.extend(v) } else { self.p.r0 = v } },
-         1 => { let v: Vec<(i64,i64,)> = parse_rows(rows)?; if append { self.p.r1.extend(v) } else { self.p.r1 = v } },
-         2 => { let v: Vec<(i64,i64,i64,)> = parse_rows(rows)?; if append { self.p.r2.extend(v) } else { self.p.r2 = v } },
-         3 => { let v: Vec<(i64,i64,Dual<i64>,)> = parse_rows(rows)?; if append { self.p.r3.extend(v) } else { self.p.r3 = v } },
-            _ => return None,
-         }
-         Some(())
-      }
-      fn run(&mut self) { match &self.pool { Some(pl) => { let p = &mut self.p; pl.install(|| p.run()) }, None => self.p.run() } }
-      fn run_here(&mut self) { self.p.run() }
-      fn run_timeout(&mut self, k: usize) -> Option<bool> { let _ = k; None }
-      fn dump(&self) -> String { vec![dump_rel(0, self.p.r0.iter().map(Row::render).collect()), dump_rel(1, self.p.r1.iter().map(Row::render).collect()), dump_rel(2, self.p.r2.iter().map(Row::render).collect()), dump_rel(3, self.p.r3.iter().map(Row::render).collect())].join(" | ") }
-      fn iters(&self) -> String { format!("iters {}", self.p.scc_iters.iter().map(|x| x.to_string()).collect::<Vec<_>>().join(" ")) }
-   }
-}
-
-#[allow(unused, non_snake_case, clippy::all)]
-pub mod l79 {
-   use ascent::*;
-   use ascent::aggregators::*;
-   use ascent::lattice::{Dual, set::Set};
-   use crate::common::*;
-   ascent! {
-      pub struct Prog;
-      relation r0(i64, i64, i64);
-      relation r1(i64, i64);
-      relation r2(i64, i64, i64);
-      relation r3(i64);
-      lattice r4(i64, Set<i64>);
-      lattice r5(i64, i64, Set<i64>);
-      r4(v0, Set::singleton((*v1))) <-- r1(v0, v1);
-      r4(v1, v2) <-- r4(v0, v2), r1(v0, v1);
-      r4(v0, Set::singleton((*v0))) <-- r3(v0) if ((*v0) < 5);
-      r4(v2, v1) <-- r4(v0, v1), r1(0, v2) if ((*v0) < 2);
-      r4(v0, v1) <-- r4(v0, v1) if ((*v0) < 3), r4(v0, v2);
-      r5(v0, ((*v1) + 1), Set::singleton(2)) <-- r2(v0, v0, v1) if ((*v1) < 2), if ((*v1) < 6);
-      r5(v0, v1, v2) <-- r5(v0, v1, v2), r2(v0, v1, v1);
-      r3(v0) <-- r0(v0, v0, v1);
-      r4(v1, Set::singleton((*v1))) <-- r1(v0, v1), r5(v0, v2, v3);
-      r1(v2, v0) <-- r5(v0, v0, v1), r5(v0, v2, v3);
-      r5(v0, v0, v1) <-- r4(v0, v1);
-   }
-   pub struct Inst { p: Prog, pool: Option<ascent::rayon::ThreadPool> }
-   pub fn make(pool: Option<usize>) -> Box<dyn Driver> {
-      let pool = pool.map(|n| ascent::rayon::ThreadPoolBuilder::new().num_threads(n).build().unwrap());
-      let p = match &pool { Some(pl) => pl.install(|| Default::default()), None => Default::default() };
-      Box::new(Inst { p, pool })
-   }
-   impl Driver for Inst {
-      fn load(&mut self, rel: usize, rows: &[Sexp], append: bool) -> Option<()> {
-         match rel {
-         0 => { let v: Vec<(i64,i64,i64,)> = parse_rows(rows)?; if append { self.p.r0.extend(v) } else { self.p.r0 = v } },
-         1 => { let v: Vec<(i64,i64,)> = parse_rows(rows)?; if append { self.p.r1.extend(v) } else { self.p.r1 = v } },
-         2 => { let v: Vec<(i64,i64,i64,)> = parse_rows(rows)?; if append { self.p.r2.extend(v) } else { self.p.r2 = v } },
-         3 => { let v: Vec<(i64,)> = parse_rows(rows)?; if append { self.p.r3.extend(v) } else { self.p.r3 = v } },
-         4 => { let v: Vec<(i64,Set<i64>,)> = parse_rows(rows)?; if append { self.p.r4.extend(v) } else { self.p.r4 = v } },
-         5 => { let v: Vec<(i64,i64,Set<i64>,)> = parse_rows(rows)?; if append { self.p.r5.extend(v) } else { self.p.r5 = v } },
-            _ => return None,
-         }
-         Some(())
-      }
-      fn run(&mut self) { match &self.pool { Some(pl) => { let p = &mut self.p; pl.install(|| p.run()) }, None => self.p.run() } }
-      fn run_here(&mut self) { self.p.run() }
-      fn run_timeout(&mut self, k: usize) -> Option<bool> { let _ = k; None }
-      fn dump(&self) -> String { vec![dump_rel(0, self.p.r0.iter().map(Row::render).collect()), dump_rel(1, self.p.r1.iter().map(Row::render).collect()), dump_rel(2, self.p.r2.iter().map(Row::render).collect()), dump_rel(3, self.p.r3.iter().map(Row::render).collect()), dump_rel(4, self.p.r4.iter().map(Row::render).collect()), dump_rel(5, self.p.r5.iter().map(Row::render).collect())].join(" | ") }
-      fn iters(&self) -> String { format!("iters {}", self.p.scc_iters.iter().map(|x| x.to_string()).collect::<Vec<_>>().join(" ")) }
-   }
-}
-
 fn main() {
-   common::main_loop(&[("l7", l7::make as common::Factory), ("l15", l15::make as common::Factory), ("l23", l23::make as common::Factory), ("l31", l31::make as common::Factory), ("l39", l39::make as common::Factory), ("l47", l47::make as common::Factory), ("l55", l55::make as common::Factory), ("l63", l63::make as common::Factory), ("l71", l71::make as common::Factory), ("l79", l79::make as common::Factory)]);
+   common::main_loop(&[("l7", l7::make as common::Factory), ("l15", l15::make as common::Factory)]);
 }
